@@ -7,7 +7,8 @@ from . import compositelib as L
 OCAML = ["composite"]
 GO = ["composite"]
 PROP = "props/C11.v"
-PROOFS = ["proofs/CompositeProto.v"] + L.PROOFS_COMMON
+PROOFS = ["proofs/CompositeProto.v", "proofs/CompositeC09.v", "proofs/CompositeProgress.v", "proofs/CompositeMeasure.v",
+          "proofs/CompositeTrace.v", "proofs/CompositeLink2.v"] + L.PROOFS_COMMON
 
 
 def run(run):
